@@ -46,11 +46,13 @@ def gen_set(r):
     specs = []
     for i in range(r.randrange(1, 6)):
         kinds = sorted(r.sample(KINDS, r.randrange(1, 4)))
-        sp = {"name": "Cp%d" % i, "kinds": kinds, "order": r.choice((0, 0, 1, 5, -3, None, "raise", "1", 2.5, "first")),
+        sp = {"name": "Cp%d" % i, "kinds": kinds, "order": r.choice((0, 0, 1, 5, -3, None, "raise", "1", 2.5, "first", "@nan", "@badint")),
               "active": r.choice((True, True, True, True, False, "raise")), "ctor_raise": r.random() < 0.08,
               # what goes wrong at import: nothing / the module is missing / the module imports but has no such class /
               # the name is not a dotted path at all
               "import_ok": r.choice((True,) * 11 + ("no-module", "no-class", "no-dot"))}
+        if r.random() < 0.15:
+            sp["own_tp"] = True     # registers a tracepoint of its own when constructed, removes it in its shutdown
         if sp["active"] is True and r.random() < 0.3:
             # switched off (or explicitly on) through the PLUGIN_<NAME> setting, in any of the forms a user may write
             sp["switch"] = r.choice(("false", "False", "no", "0", False, 0, "", "true", "True", "yes", True, 1))
@@ -66,7 +68,7 @@ def generate(seed, tier):
         js = [seed % 60 + 1]          # the same set for 60 consecutive seeds, each with its own fault index
     else:
         js = [r2.randrange(1, 70) for _ in range(3)]
-    return {"specs": specs, "python_plugin": r.random() < 0.6, "js": js,
+    return {"specs": specs, "python_plugin": r.random() < 0.6, "js": js, "restart": r.random() < 0.35,
             "knobs": {"p_switch": 0.0, "cost_ns": 1000, "clock_step_ns": 2000, "stall_p": 0.0}}
 
 
@@ -77,6 +79,8 @@ def shrink_candidates(s):
     if len(s["js"]) > 1:
         for cand in common.drop_one(s["js"]):
             yield dict(s, js=cand)
+    if s.get("restart"):
+        yield dict(s, restart=False)
     for i, sp in enumerate(s["specs"]):
         for cand in common.drop_one(sp["kinds"]):
             if cand:
@@ -93,6 +97,8 @@ def _expected_order(specs, python_plugin):
         if "switch" in sp and str(sp["switch"]).lower() not in ("true", "yes", "t", "1", "y"):
             continue        # switched off by configuration
         o = sp["order"]
+        if o in ("@nan", "@badint"):
+            o = None       # a number by type that cannot be ordered: default order, like any other unusable value
         # a value that is not a number cannot be a sort key among numbers: default order, like a failing order()
         items.append((sp["name"], o if isinstance(o, (int, float)) else 0))
     return [n for n, _ in sorted(items, key=lambda x: x[1])]
@@ -120,6 +126,8 @@ def execute(s, ch):
                     d["order"] = sp["order"]
                 if sp["active"] is not True and sp["active"] != "raise":
                     d["active"] = sp["active"]
+                if sp.get("own_tp"):
+                    d["own_tp"] = True
                 plugs.append(d)
             switches = {("PLUGIN_%s" % sp["name"]).upper(): sp["switch"] for sp in s["specs"] if "switch" in sp}
             w = world.World(k, cfg=switches, plugins=plugs, python_plugin=s["python_plugin"])
@@ -178,6 +186,20 @@ def execute(s, ch):
             except BaseException as e:  # noqa
                 res["shutdown"] = "%s: %s" % (type(e).__name__, e)
             res["started"] = w.deep.started
+            if s.get("restart") and fault_at is None and res["shutdown"] == "ok":
+                # a second life of the same agent: the plugins are loaded afresh, and the agent starts and stops again
+                k.fault("restart")
+                ncalls = len(w.sink.calls)
+                try:
+                    w.start()
+                    k.settle()
+                    res["loaded_again"] = [pl.name for pl in w.config.plugins]
+                    w.deep.shutdown()
+                except kernel.SimKilled:
+                    raise
+                except BaseException as e:  # noqa
+                    res["restart"] = "%s: %s" % (type(e).__name__, e)
+                del w.sink.calls[ncalls:]
             res["calls"] = [(c[1], c[2]) for c in w.sink.calls]
             res["fired"] = list(w.sink.fired)
             res["snaps"] = [{kv.key: kv.value.string_value for kv in sn.attributes} for (_, _, sn, _) in w.service.snapshots]
@@ -198,6 +220,10 @@ def execute(s, ch):
         if base["loaded"] != exp_loaded:
             kind = "order" if sorted(base["loaded"]) == sorted(exp_loaded) else "set"
             viol.append(V("loaded-plugins-wrong-%s" % kind, "loaded %s, expected %s; %s" % (base["loaded"], exp_loaded, ctx)))
+        if base.get("restart"):
+            viol.append(V("restart-raised:%s" % base["restart"].split(":")[0], "%s; %s" % (base["restart"], ctx)))
+        elif "loaded_again" in base and base["loaded_again"] != base["loaded"]:
+            viol.append(V("loaded-plugins-differ-after-restart", "%s then %s; %s" % (base["loaded"], base["loaded_again"], ctx)))
         if base["shutdown"] != "ok":
             viol.append(V("shutdown-raised:%s" % base["shutdown"].split(":")[0], "%s; %s" % (base["shutdown"], ctx)))
         for r_ in base["raised"]:
